@@ -197,8 +197,9 @@ func (q *wpSafe) AddStalledIdle() *fasthttp.VerifWorkerChan {
 	}
 	return nil
 }
-func (q *wpSafe) Start()          { q.p.Start() }
-func (q *wpSafe) StartNoCleaner() { q.p.StartNoCleaner() }
+func (q *wpSafe) StartNoCleanerCap(c int) { q.p.StartNoCleanerCap(c) }
+func (q *wpSafe) Start()                  { q.p.Start() }
+func (q *wpSafe) StartNoCleaner()         { q.p.StartNoCleaner() }
 
 // waitFor polls cond until it holds, the pool died, or wpWait elapsed.
 func (q *wpSafe) waitFor(cond func() bool) bool {
@@ -1109,6 +1110,234 @@ func buildWpStopRace(a [][]byte) *Case {
 		}}
 }
 
+// ---------------------------------------------------------------------------------------------
+// kind "cleanstall": args = chanCap (0|1), nReal (0..3), stalledOnTop (0|1) — clean retires a worker that has called
+// release but is not yet parked on its (unbuffered) channel.
+//
+// The stalled worker is played by the harness (AddStalledIdleCounted: in ready, owns a workersCount slot, unbuffered
+// channel as under GOMAXPROCS=1); nReal real idle workers sit in ready with it, every stamp is expired. clean runs in
+// a goroutine; the stalled worker "parks" (TakeNil) only after clean had ample time to pass it. Statement: idle
+// workers are retired after MaxIdleWorkerDuration and nothing is left after Stop — the retired worker must get its
+// nil (then it exits: StalledExit), workersCount returns to 0.  Sound under load: on a blocking send clean cannot get
+// past the stalled worker before the harness receives, however long that takes.
+
+func buildWpCleanStall(a [][]byte) *Case {
+	if len(a) < 3 || wpHangs.Load() >= 3 {
+		return nil
+	}
+	chanCap, nReal, onTop := wpAtoi(a[0]), wpAtoi(a[1]), wpAtoi(a[2])
+	if chanCap < 0 || chanCap > 1 || nReal < 0 || nReal > 8 {
+		return nil
+	}
+	h := newWpRun()
+	gates := make([]chan error, nReal)
+	for i := range gates {
+		gates[i] = make(chan error, 1)
+	}
+	started := make(chan int, nReal+1)
+	h.work = func(id int) error { started <- id; return <-gates[id] }
+	pool := &wpSafe{p: fasthttp.VerifNewWorkerPool(nReal+1, time.Hour, h.workerFunc, h.connState, nopLogger{})}
+	pool.StartNoCleanerCap(chanCap)
+	old := time.Now().Add(-time.Hour)
+	var viols []string
+	addViol := func(s string) { viols = append(viols, s) }
+	bail := func(what string) *Case {
+		for i := range gates {
+			select {
+			case gates[i] <- nil:
+			default:
+			}
+		}
+		msg := "impl-hang: " + what + " did not happen within " + wpWait.String()
+		return &Case{Impl: msg, Tags: []string{"cleanstall"}, Judge: func([]string) Verdict {
+			wpHangs.Store(0)
+			return Verdict{VSpec, "impl-hang", msg}
+		}}
+	}
+	for k := 0; k < nReal; k++ {
+		if !pool.Serve(&wpConn{id: k, h: h}) || pool.isDead() {
+			return bail("Serve below the bound")
+		}
+		select {
+		case <-started:
+		case <-time.After(wpWait):
+			wpHangs.Add(1)
+			return bail("WorkerFunc start")
+		}
+	}
+	var stalled *fasthttp.VerifWorkerChan
+	addStalled := func() {
+		pool.do(func() { stalled = pool.p.AddStalledIdleCounted(old) })
+	}
+	if onTop == 0 {
+		addStalled() // bottom of the stack: ready = [stalled, real…]
+	}
+	for k := 0; k < nReal; k++ {
+		gates[k] <- nil
+		want := k + 1
+		if onTop == 0 {
+			want++
+		}
+		if !pool.waitFor(func() bool { _, rd, _ := pool.Counts(); return rd == want }) {
+			return bail("release of an idle worker")
+		}
+	}
+	if onTop != 0 {
+		addStalled()
+	}
+	if stalled == nil || pool.isDead() {
+		return bail("AddStalledIdleCounted")
+	}
+	for i := 0; i <= nReal; i++ { // every stamp expired, sorted
+		pool.SetLastUse(i, old.Add(time.Duration(i)*time.Second))
+	}
+	cleanDone := make(chan struct{})
+	go func() { pool.p.Clean(time.Minute); close(cleanDone) }()
+	// clean's lock section is over (ready is empty); give it ample time to get past the stalled worker — it cannot
+	// with a blocking send, it does at once with a non-blocking one
+	if !pool.waitFor(func() bool { _, rd, _, ok := pool.TryCounts(); return ok && rd == 0 }) {
+		return bail("clean cutting the expired workers out of ready")
+	}
+	cleanReturnedEarly := false
+	select {
+	case <-cleanDone:
+		cleanReturnedEarly = true
+	case <-time.After(100 * time.Millisecond):
+	}
+	// now the stalled worker parks on its channel
+	gotNil := false
+	took := wpCallT(func() { gotNil = pool.p.TakeNil(stalled) })
+	if took && gotNil {
+		pool.do(pool.p.StalledExit)
+	} else if took {
+		addViol("clean-sent-conn: the retired worker received a connection instead of nil")
+	} else {
+		addViol(fmt.Sprintf("retired-worker-not-notified: clean removed a worker from ready that had called release but was not yet parked on its unbuffered channel (clean returned before the worker took its channel: %v); the worker never got its nil within %v: it is out of ready, keeps its workersCount slot and Stop cannot reach it", cleanReturnedEarly, wpWait))
+	}
+	select {
+	case <-cleanDone:
+	case <-time.After(wpWait):
+		wpHangs.Add(1)
+		return bail("return of clean")
+	}
+	// every expired worker was retired: no worker left even before Stop
+	retiredAll := pool.waitFor(func() bool { wc, rd, _ := pool.Counts(); return wc == 0 && rd == 0 })
+	if !retiredAll && len(viols) == 0 && !pool.isDead() {
+		wc, rd, _ := pool.Counts()
+		addViol(fmt.Sprintf("idle-not-retired: clean ran with every worker expired, afterwards workersCount=%d ready=%d", wc, rd))
+	}
+	pool.Stop()
+	if !pool.isDead() {
+		if wc, rd, _ := pool.Counts(); (wc != 0 || rd != 0) && len(viols) < 2 {
+			addViol(fmt.Sprintf("worker-left-after-stop: after clean and Stop workersCount=%d ready=%d", wc, rd))
+		}
+	} else {
+		viols = append([]string{"impl-hang: a pool call did not return within " + wpWait.String()}, viols...)
+	}
+	for k := 0; k < nReal; k++ {
+		if _, v := h.connFate(k, false); v != "" {
+			addViol(v)
+		}
+	}
+	impl := fmt.Sprintf("chanCap=%d real=%d stalledOnTop=%d cleanReturnedBeforeWorkerParked=%v", chanCap, nReal, onTop, cleanReturnedEarly)
+	return &Case{Impl: impl, Nontrivial: true, Tags: []string{"cleanstall"},
+		Judge: func([]string) Verdict {
+			wpHangs.Store(0)
+			if len(viols) > 0 {
+				return Verdict{VSpec, wpViolKey(viols[0]), viols[0] + " | " + impl}
+			}
+			return Ok()
+		}}
+}
+
+// ---------------------------------------------------------------------------------------------
+// kind "cleanrace": args = nWorkers, seed — unbuffered worker channels (GOMAXPROCS=1 configuration of the pool), every
+// worker finishes at the same moment while a cleaner with a 1 ns idle limit runs in a loop: it retires workers that
+// have just called release and may not be parked yet. Monitor: the cleaner brings workersCount to 0, nothing is left
+// after Stop, exactly-once.
+
+func buildWpCleanRace(a [][]byte) *Case {
+	if len(a) < 2 || wpHangs.Load() >= 3 {
+		return nil
+	}
+	n, seed := wpAtoi(a[0]), wpAtoi(a[1])
+	if n < 1 || n > 256 {
+		return nil
+	}
+	h := newWpRun()
+	gate := make(chan struct{})
+	var entered atomic.Int32
+	h.work = func(id int) error {
+		entered.Add(1)
+		<-gate
+		if (id+seed)%3 == 0 {
+			runtime.Gosched()
+		}
+		return nil
+	}
+	pool := &wpSafe{p: fasthttp.VerifNewWorkerPool(n, time.Hour, h.workerFunc, h.connState, nopLogger{})}
+	pool.StartNoCleanerCap(0)
+	var viols []string
+	addViol := func(s string) { viols = append(viols, s) }
+	for k := 0; k < n; k++ {
+		if !pool.Serve(&wpConn{id: k, h: h}) {
+			addViol(fmt.Sprintf("conn-rejected-below-bound: Serve returned false with %d connections and MaxWorkersCount %d", k, n))
+			break
+		}
+	}
+	pool.waitFor(func() bool { return int(entered.Load()) == n })
+	quit := make(chan struct{})
+	cleanerDone := make(chan struct{})
+	go func() {
+		defer close(cleanerDone)
+		for {
+			select {
+			case <-quit:
+				return
+			default:
+			}
+			pool.Clean(time.Nanosecond)
+			if pool.isDead() {
+				return
+			}
+		}
+	}()
+	close(gate)
+	left := ""
+	if !pool.waitFor(func() bool { wc, rd, _ := pool.Counts(); return wc == 0 && rd == 0 }) && !pool.isDead() {
+		wc, rd, _ := pool.Counts()
+		left = fmt.Sprintf("workersCount=%d ready=%d", wc, rd)
+	}
+	close(quit)
+	<-cleanerDone
+	pool.Stop()
+	if left != "" && !pool.isDead() {
+		wc, rd, _ := pool.Counts()
+		if wc != 0 || rd != 0 {
+			addViol(fmt.Sprintf("worker-left-after-stop: %d workers with unbuffered channels finished while the cleaner (idle limit 1ns) was running; %v later %s, after Stop workersCount=%d ready=%d: workers were cut out of ready without being told to stop", n, wpWait, left, wc, rd))
+		} else {
+			addViol(fmt.Sprintf("idle-not-retired: the cleaner (idle limit 1ns) did not retire every idle worker within %v (%s)", wpWait, left))
+		}
+	}
+	for k := 0; k < n; k++ {
+		if _, v := h.connFate(k, false); v != "" && len(viols) < 3 {
+			addViol(v)
+		}
+	}
+	if pool.isDead() {
+		viols = append([]string{"impl-hang: a pool call did not return within " + wpWait.String()}, viols...)
+	}
+	impl := fmt.Sprintf("workers=%d unbuffered", n)
+	return &Case{Impl: impl, Nontrivial: n >= 2, Tags: []string{"cleanrace"},
+		Judge: func([]string) Verdict {
+			wpHangs.Store(0)
+			if len(viols) > 0 {
+				return Verdict{VSpec, wpViolKey(viols[0]), viols[0] + " | " + impl}
+			}
+			return Ok()
+		}}
+}
+
 func init() {
 	Register(&Prop{
 		ID: "C13",
@@ -1117,6 +1346,8 @@ func init() {
 			"sequences of 3..5 ops over a reduced op alphabet of 8 ops for MaxWorkersCount 1..2; bsearch: clean's binary search on stamp lists of length 0..9 (sorted and unsorted) vs model and vs the expired-prefix reading; " +
 			"stopgate: all (0..3 idle + one stalled idle worker, 1..3 busy workers, non-empty subset of them finishing WHILE Stop is parked on the stalled worker's notification), deterministic; " +
 			"stoprace: Stop over 50..450 idle workers while 4..16 spinning workers finish at staggered delays; both judged by the monitor (after Stop and the end of every WorkerFunc workersCount = 0, ready empty, exactly-once); " +
+			"cleanstall: clean retires a harness-played worker that called release but is not yet parked on its unbuffered channel (with 0..3 real idle workers, channel capacity 0 and 1): it must still get its nil, workersCount returns to 0; " +
+			"cleanrace: pool with unbuffered worker channels, 8..128 workers finish at once while a cleaner with a 1 ns idle limit loops; " +
 			"stress: real Start/Serve/clean/Stop with 2..6 feeder goroutines, MaxWorkersCount 1..3, MaxIdleWorkerDuration 2..6 ms, Stop at the end or midway, judged by the monitor; " +
 			"non-trivial = ops case with >= 3 state-changing ops / stress case with >= 2 accepted connections / bsearch with >= 2 workers; distinct = distinct input",
 		Parallel:   true,
@@ -1142,6 +1373,10 @@ func init() {
 				return buildWpStopGate(a)
 			case "stoprace":
 				return buildWpStopRace(a)
+			case "cleanstall":
+				return buildWpCleanStall(a)
+			case "cleanrace":
+				return buildWpCleanRace(a)
 			}
 			return nil
 		},
@@ -1288,6 +1523,23 @@ func init() {
 						}
 					}
 				}
+			}
+			// clean against a worker that is in ready but not yet parked on its unbuffered channel
+			for rep := 0; rep < reps; rep++ {
+				for cc := 0; cc <= 1; cc++ {
+					for nReal := 0; nReal <= 3; nReal++ {
+						for top := 0; top <= 1; top++ {
+							emit("cleanstall", N(cc), N(nReal), N(top))
+						}
+					}
+				}
+			}
+			nCleanRace := 30
+			if tier == "thorough" {
+				nCleanRace = 300
+			}
+			for i := 0; i < nCleanRace; i++ {
+				emit("cleanrace", N(8+r.Intn(120)), N(r.Intn(1000)))
 			}
 			nRace := 40
 			if tier == "thorough" {
